@@ -113,6 +113,58 @@ CloneEditScope ==
        names |-> {"z"}, vals |-> {}, pos |-> {NoPos}, createN |-> {0},
        queries |-> {"xf2"}, walk |-> FALSE]
 
+(* the compare scope: one named design built twice (netlist 1 and netlist 2 are faithful copies of each   *)
+(* other by construction), then every single structural mutation of one of them                          *)
+Csetdir(x, v) == [op |-> "set_dir", x |-> x, ival |-> v]
+CmpDesign == << Cnew("N", "n"), Ccreate("NL", 1, "prim", 0), Ccreate("NL", 1, "work", 0),
+                Ccreate("LD", 1, "leaf", 0), Ccreate("LD", 2, "mid", 0), Ccreate("LD", 2, "top", 0),
+                Ccreate("DP", 1, "i", 1), Ccreate("DP", 1, "o", 1),
+                Ccreate("DP", 2, "a", 2), Ccreate("DP", 2, "b", 1), Ccreate("DC", 2, "n", 2),
+                Ccreate("DP", 3, "t", 1), Ccreate("DC", 3, "m", 2),
+                Csetdir(1, 2), Csetdir(2, 3), Csetdir(3, 2), Csetdir(4, 3), Csetdir(5, 1),
+                Cchild(2, "l", 1), Cchild(3, "m1", 2), Cchild(3, "x", 1), Cchild(3, "y", 1),
+                Csetitem("I", 2, "props", "v0"),
+                Cconnect(1, IPin(3)), Cconnect(1, OPin(1, 1)), Cconnect(2, OPin(1, 2)), Cconnect(2, IPin(5)),
+                Cconnect(3, IPin(6)), Cconnect(3, OPin(2, 3)), Cconnect(3, OPin(3, 2)),
+                Cconnect(4, OPin(2, 5)), Cconnect(4, OPin(3, 1)),
+                Csettopdef(1, 3) >>
+ShiftRef(r, off) == IF r.k = "i" THEN IPin(r.q + off.Q) ELSE [r EXCEPT !.i = @ + off.I, !.q = @ + off.Q]
+ShiftCall(c, off) ==
+    CASE c.op = "new" -> c
+      [] c.op = "create" -> [c EXCEPT !.p = @ + off[Rel[c.rel].pk]]
+      [] c.op = "create_child" -> [c EXCEPT !.p = @ + off.D, !.ref = @ + off.D]
+      [] c.op = "connect" -> [c EXCEPT !.w = @ + off.W, !.pin = ShiftRef(@, off)]
+      [] c.op = "set_item" -> [c EXCEPT !.x = @ + off[c.kind]]
+      [] c.op = "set_dir" -> [c EXCEPT !.x = @ + off.P]
+      [] c.op = "set_top_def" -> [c EXCEPT !.n = @ + off.N, !.d = @ + off.D]
+CmpOff == LET s1 == ApplySeqX(Empty, CmpDesign) IN [k \in Kinds |-> CountOf(s1, k)]
+CmpInit == CmpDesign \o [j \in DOMAIN CmpDesign |-> ShiftCall(CmpDesign[j], CmpOff)]
+Cmp(a, b) == [op |-> "compare", a |-> a, b |-> b]
+Seq2(e, a, b) == [op |-> "seq", calls |-> <<e, Cmp(a, b)>>]
+CompareCands(s) ==
+    LET side == SideElems(s, 2)
+        edits ==
+          {[op |-> "remove", rel |-> rn, p |-> s[Rel[rn].back][x], x |-> x] :
+              <<rn, x>> \in UNION {{<<r, y>> : y \in side[Rel[r].ck]} : r \in {"DI", "DP", "DC", "LD", "NL", "PQ", "CW"}}}
+          \cup {Ccreate(rn, p, "z", 0) : <<rn, p>> \in UNION {{<<r, y>> : y \in side[Rel[r].pk]} : r \in {"DP", "DC", "LD", "NL", "PQ", "CW"}}}
+          \cup {Cchild(p, "z", d) : <<p, d>> \in side.D \X side.D}
+          \cup {Csetdir(x, v) : <<x, v>> \in side.P \X (0..3)}
+          \cup {[op |-> "set_attr", kind |-> "P", x |-> x, key |-> "scalar", val |-> FALSE] : x \in side.P}
+          \cup {Csetref(i, d) : <<i, d>> \in side.I \X side.D}
+          \cup {[op |-> "mutate_props", kind |-> "I", x |-> i, val |-> "v1"] : i \in side.I}
+          \cup {[op |-> "drop_prop", kind |-> "I", x |-> i] : i \in side.I}
+          \cup {[op |-> "set_name", kind |-> kind, x |-> x, val |-> "z"] :
+                    <<kind, x>> \in UNION {{<<k, y>> : y \in side[k]} : k \in {"L", "D", "P", "C", "I"}}}
+          \cup {[op |-> "disconnect", w |-> w, pin |-> r] : <<w, r>> \in {<<ww, rr>> \in side.W \X AllRefs(s) : rr.k # "p" /\ WireOfRef(s, rr) = ww}}
+        moves == {<<[op |-> "disconnect", w |-> w, pin |-> r], Cconnect(w, r2)>> :
+                     <<w, r, r2>> \in {<<ww, rr, r3>> \in side.W \X AllRefs(s) \X AllRefs(s) :
+                         /\ rr.k # "p" /\ r3.k # "p" /\ WireOfRef(s, rr) = ww /\ WireOfRef(s, r3) = None
+                         /\ (IF r3.k = "i" THEN r3.q \in side.Q ELSE r3.i \in side.I)}}
+    IN {Cmp(1, 2), Cmp(2, 1),
+        [op |-> "seq", calls |-> <<Cclone("N", 1), Cmp(1, 3)>>], [op |-> "seq", calls |-> <<Cclone("N", 1), Cmp(3, 1)>>]}
+       \cup {Seq2(e, 1, 2) : e \in edits} \cup {Seq2(e, 2, 1) : e \in edits}
+       \cup {[op |-> "seq", calls |-> <<m[1], m[2], Cmp(1, 2)>>] : m \in moves}
+
 (* a fixed small design with colliding names for the query product (the inputs of C13 are the queries) *)
 QInit == << Cnew("N", "n"), Ccreate("NL", 1, "l", 0), Ccreate("LD", 1, "a", 0), Ccreate("LD", 1, "ab", 0),
             Ccreate("LD", 1, "t", 0),
@@ -131,7 +183,9 @@ QScope == [init |-> QInit, ops |-> {}, max |-> MaxAll(0), names |-> {}, vals |->
            createN |-> {0}, queries |-> {"C13"}, walk |-> FALSE, sample |-> 3000]
 
 ScopeTable ==
-  [ query |-> QScope,
+  [ compare |-> [init |-> CmpInit, ops |-> {}, max |-> MaxAll(0), names |-> {}, vals |-> {}, pos |-> {NoPos},
+                 createN |-> {0}, queries |-> {"C20"}, walk |-> FALSE],
+    query |-> QScope,
     clone_edit |-> CloneEditScope,
     clone |-> [XfScope EXCEPT !.queries = {"clone"}, !.names = {"a", U}, !.lookupVals = {"a", "leaf", "mid"},
                               !.ops = @ \cup {"remove:LD", "props:I"}],
@@ -209,6 +263,7 @@ QCands(s) ==
     \cup (IF "hcheck" \in Queries THEN HCheckCands(s) ELSE {})
     \cup (IF "xf" \in Queries THEN XfCands(s) ELSE {})
     \cup (IF "clone" \in Queries THEN CloneCands(s) ELSE {})
+    \cup (IF "C20" \in Queries THEN CompareCands(s) ELSE {})
     \cup (IF "C13" \in Queries THEN RandomSubset(Scope.sample * (MaxDepth + 1), QueryProduct(s)) \cup DirectProduct(s) ELSE {})
     \cup (IF "xf2" \in Queries
           THEN StepCands(s) \cup {[op |-> "uniquify", n |-> n] : n \in IdsN(s)}
@@ -254,6 +309,8 @@ Inv_C07_Model ==
                 cl == CloneClauses(ir, c, r.out, r.s, r.ret, [none |-> 0]) IN
             \A j \in DOMAIN cl : IF cl[j][2] THEN TRUE ELSE PrintT(<<"MODEL-C07", cl[j][1], c>>) /\ FALSE
 Inv_CloneDefAgrees == ("clone" \in Queries) => \A d \in IdsD(ir) : CloneOf(ir, "D", d).s = CloneDef(ir, d)
+(* the two notions used by C20 are consistent: a faithful copy differs in no examined aspect *)
+Inv_C20_Model == ("C20" \in Queries) => (C07_Iso(ir, ir, "N", 1, 2) => ~Differs(ir, 1, 2) /\ ~Differs(ir, 2, 1))
 Inv_OracleSane      == (Queries \cap {"C11", "C12", "xf"} # {}) => OracleSane(ir)
 
 EmitState ==
